@@ -517,6 +517,86 @@ func itoa(v int64) string {
 // Dial is set by harnesses; woven net.Dial calls land here.
 var Dial func(network, address string) (net.Conn, error)
 
+// ---------------------------------------------------------------- listening
+
+// Listener is a simulated net.Listener: Accept blocks in the kernel until a
+// dialler has pushed the server end of a new link.
+type Listener struct {
+	w       *kernel.World
+	name    string
+	pending []net.Conn
+	waiters []*kernel.Task
+	closed  bool
+}
+
+func NewListener(w *kernel.World, name string) *Listener { return &Listener{w: w, name: name} }
+
+// Push hands the server end of a freshly dialled link to the listener.
+//
+//go:norace
+func (l *Listener) Push(c net.Conn) {
+	l.pending = append(l.pending, c)
+	for i, t := range l.waiters {
+		l.w.Wake(t)
+		l.waiters[i] = nil
+	}
+	l.waiters = l.waiters[:0]
+}
+
+//go:norace
+func (l *Listener) Accept() (net.Conn, error) {
+	if l.w.Dead() {
+		return nil, net.ErrClosed
+	}
+	t := l.w.Me()
+	if t != nil {
+		l.w.YieldT(t, "net.accept")
+	}
+	for {
+		if l.closed {
+			return nil, net.ErrClosed
+		}
+		if len(l.pending) > 0 {
+			c := l.pending[0]
+			for j := 0; j < len(l.pending)-1; j++ {
+				l.pending[j] = l.pending[j+1]
+			}
+			l.pending[len(l.pending)-1] = nil
+			l.pending = l.pending[:len(l.pending)-1]
+			return c, nil
+		}
+		if t == nil {
+			panic("simnet: Accept would block outside a task")
+		}
+		l.waiters = append(l.waiters, t)
+		l.w.Block(t, "net.accept", "listener:"+l.name)
+	}
+}
+
+//go:norace
+func (l *Listener) Close() error {
+	l.closed = true
+	for i, t := range l.waiters {
+		l.w.Wake(t)
+		l.waiters[i] = nil
+	}
+	l.waiters = l.waiters[:0]
+	return nil
+}
+
+func (l *Listener) Addr() net.Addr { return addr(l.name) }
+
+// Listen is set by harnesses; woven net.Listen calls land here.
+var Listen func(network, address string) (net.Listener, error)
+
+// ListenHook replaces net.Listen in woven files.
+func ListenHook(network, address string) (net.Listener, error) {
+	if Listen == nil {
+		return net.Listen(network, address)
+	}
+	return Listen(network, address)
+}
+
 // DialTimeoutHook replaces net.DialTimeout in woven files.
 func DialTimeoutHook(network, address string, timeout time.Duration) (net.Conn, error) {
 	if Dial == nil {
